@@ -51,6 +51,7 @@ type Engine struct {
 	litIDs        map[string]uint64
 	smallSet      map[int]bool
 	smallMemo     map[int]bool
+	nonNegSet     map[int]bool
 	errT          types.Type
 }
 
@@ -85,11 +86,30 @@ func newEngine(w *World, h *Harness) *Engine {
 		nextFn:        1 << 32,
 		usedContracts: map[string]bool{}, usedLoops: map[string]bool{},
 		ifaceAsserts: map[string]types.Type{}, litIDs: map[string]uint64{},
-		smallSet: map[int]bool{}, smallMemo: map[int]bool{},
+		smallSet: map[int]bool{}, smallMemo: map[int]bool{}, nonNegSet: map[int]bool{},
 	}
 	c.Distinct = e.M.distinctIDs
 	c.Small = e.isSmall
+	c.NonNeg = e.isNonNeg
 	return e
+}
+
+// isNonNeg: a non-negative quantity below 2^50: slice lengths/capacities/offsets, zero-extended narrow values,
+// small constants, integer inputs bounded below by such a quantity.
+func (e *Engine) isNonNeg(t *smt.Term) bool {
+	switch t.Op {
+	case smt.OConst:
+		return t.Val < 1<<50
+	case smt.OVar, smt.OApp:
+		return e.nonNegSet[t.ID]
+	case smt.OZeroExt:
+		return t.Args[0].Sort.Width <= 48
+	case smt.OIte:
+		return e.isNonNeg(t.Args[1]) && e.isNonNeg(t.Args[2])
+	case smt.OBVAnd:
+		return t.Args[1].IsConst() && t.Args[1].Val < 1<<50
+	}
+	return false
 }
 
 // isSmall: the term, read as a signed 64-bit integer, is known to have magnitude below 2^56. Lengths, capacities
@@ -175,6 +195,7 @@ func (e *Engine) constrain(v Value) {
 		case lkIndex, lkLen, lkCap:
 			e.axiom(c.Ult(t, e.k64(maxLen)))
 			e.markSmall(t)
+			e.nonNegSet[t.ID] = true
 		}
 	}
 	e.constrainShape(v.T, v.L)
